@@ -184,5 +184,15 @@ add("C18", "exploration",
     "Sizes via [ volumes ] except in the dedicated no-volume ligand cases; specs naming no molecule are not generated for -start.",
     "§5 C18")
 
-for _p in ["C15"]:
-    NOT_YET[_p] = "check under construction in this session (bounded exhaustive exploration applies; see DESIGN.md)"
+add("C15", "exploration",
+    "bounded-exhaustive enumeration of residue definitions / virtual-site parameters / build files against independent geometry",
+    "All virtual-site constructions on a parameter grid are compared with the GROMACS manual formulas and re-evaluated under the "
+    "24 proper cube rotations x 3 translations; all ordered pairs of residue definitions from every connected atom graph <=4 "
+    "atoms (two namings, two bond lengths) are read as one molecule and templated by the real GenerateTemplates under 3 initial "
+    "layouts: isomorphic definitions must share key and size, different name multisets must not, templates are centred and "
+    "complete, a reported success implies all targets within tolerance (recomputed independently); 16 build-file variants check "
+    "that user templates and sizes are used verbatim and not regenerated.",
+    "COM/COW virtual_sitesn with unequal weights not judged; layouts are 3 fixed seeds passed through the layout seam.",
+    "§5 C15")
+
+
